@@ -108,8 +108,8 @@ pub fn case(c: &Case, obs: &mut Obs) -> PResult {
 
 pub fn run(run: &mut Run) {
     run.technique = "bounded exhaustive enumeration of all admissible (n,k) up to a bound x 12 levels x 3 kinds x {Wilson, Wald}; metamorphic relations between pairs of calls (no reference value)".into();
-    run.rule = "every admissible (n,k), n <= N (quick 400, thorough 2500), for ci/ci_wilson and, on its own domain, ci_z_normal: monotone in k, mirror k <-> n-k with flipped kind, strictly narrower for (m n, m k), m in {2,3,10}, wider with the level, [0,1] and midpoint between k/n and 1/2 (Wilson); plus random large (n,k); every case is non-trivial and distinct by construction".into();
-    let nmax: u64 = run.tier.pick(400, 2500);
+    run.rule = "every admissible (n,k), n <= N (quick 600, thorough 4000), for ci/ci_wilson and, on its own domain, ci_z_normal: monotone in k, mirror k <-> n-k with flipped kind, strictly narrower for (m n, m k), m in {2,3,10}, wider with the level, [0,1] and midpoint between k/n and 1/2 (Wilson); plus random large (n,k); every case is non-trivial and distinct by construction".into();
+    let nmax: u64 = run.tier.pick(600, 4000);
     run.par((nmax + 1) as usize, |ni, obs| {
         let n = ni as u64;
         for k in 2..n.saturating_sub(1) {
@@ -132,7 +132,7 @@ pub fn run(run: &mut Run) {
         let k = lo + ((r as u128 * (span as u128 + 1)) >> 64) as u64;
         Case { n, k, kind, wald }
     });
-    run.prop("random_big", run.tier.pick(5_000, 100_000), s, |c, obs| {
+    run.prop("random_big", run.tier.pick(20_000, 1_000_000), s, |c, obs| {
         obs.nontrivial(&(c.n, c.k, c.kind, c.wald));
         case(c, obs)
     });
